@@ -616,8 +616,15 @@ func (P) Exec(line string) string {
 	if len(tok) < 2 || tok[0] != "C01" {
 		return "bad-op"
 	}
-	if tok[1] == "par" {
+	switch tok[1] {
+	case "par":
 		return execPar(tok[2:])
+	case "txs":
+		return execTxs(tok[2:])
+	case "cbh":
+		return execCbh(tok[2:])
+	case "sub":
+		return execSub(tok[2:])
 	}
 	sc, e := scenarioOf(tok[1:])
 	if sc == nil {
@@ -693,6 +700,7 @@ func Lines(seed uint64, thorough bool) []string {
 }
 
 func generate(R *core.Rand, thorough bool, emit func(class string, nontrivial bool, line string)) {
+	genSolo(R.Fork(), thorough, emit)
 	var parPool []string // bodies of blk cases that may be bundled into concurrent runs
 	defer func() {
 		// `par`: 8 cases per line, each on its own fresh instance, run concurrently
